@@ -125,7 +125,9 @@ fn complete(req: &Value) -> Value {
                 items
                     .iter()
                     .map(|i| {
-                        if req["ranges"].as_bool().unwrap_or(false) {
+                        if req["details"].as_bool().unwrap_or(false) {
+                            json!([i.label.as_str(), i.signature.clone(), i.description.clone(), format!("{:?}", i.kind)])
+                        } else if req["ranges"].as_bool().unwrap_or(false) {
                             json!([i.label.as_str(), u32::from(i.source_range.start()), u32::from(i.source_range.end()), i.replace.as_str()])
                         } else {
                             json!(i.label.as_str())
